@@ -58,7 +58,11 @@ long g_os_s, g_os_ns; int g_os_ret, g_os_calls; long g_os_clk;
 /* stated bounds (assumptions): the clock reads less than 2^62 s after the epoch, a request is shorter than 2^62 s;
    then  reading + request (+ carry)  is representable in time_t */
 #define CLOCK_MAX ((1L << 62) - 1)
+#ifdef C20_FULL_REQ_RANGE        /* diagnostic build: no bound on the request -> the deadline addition overflows (finding, see units/c20.py) */
+#define REQ_MAX   LONG_MAX
+#else
 #define REQ_MAX   ((1L << 62) - 1)
+#endif
 #define CLOCK_OK  (0 <= g_now_s && g_now_s <= CLOCK_MAX && NORM(g_now_ns))
 
 /* ------------------------------------------------------------------ contracts of the kernels (enforced AND used) */
@@ -248,7 +252,13 @@ void h_nanosleep(void) {
   int r = myth_nanosleep_body(&req, with_rem ? &REM : 0);
   __CPROVER_assert(req.tv_sec == g_req_s && req.tv_nsec == g_req_ns, "nanosleep: request not modified");
   __CPROVER_assert(REM.tv_sec == -7 && REM.tv_nsec == -7, "nanosleep: rem untouched (the sleep is never interrupted)");
-  __CPROVER_assert(r != EINVAL || g_reads == 0, "nanosleep: EINVAL before any clock read");
+  /* the clauses of nanosleep_contract once more, as individually named obligations on the real body */
+  __CPROVER_assert(r == 0 || r == EINVAL, "nanosleep: returns 0 or EINVAL");
+  __CPROVER_assert((r == EINVAL) == (req.tv_sec < 0 || req.tv_nsec < 0 || req.tv_nsec > NS_MAX), "nanosleep: EINVAL exactly for malformed durations");
+  __CPROVER_assert(r != EINVAL || (g_reads == 0 && g_yield_ever == 0), "nanosleep: EINVAL before any clock read and without yielding");
+  __CPROVER_assert(r != 0 || (g_reads == 2 && g_past == 1 && GT(g_now_s, g_now_ns, g_dl_s, g_dl_ns)),
+                   "nanosleep: returns 0 only after a clock reading strictly later than start + duration");
+  __CPROVER_assert(g_need_yield == 0, "nanosleep: every unsuccessful deadline reading was followed by its yield");
   VERIF_CANARY();
 }
 
@@ -329,7 +339,11 @@ void h_timedjoin(void) {
   g_resp = nondet_bool() ? &RES : 0;
   int r = myth_timedjoin_body(&TH, g_resp, &abst);
   __CPROVER_assert(abst.tv_sec == g_dl_s && abst.tv_nsec == g_dl_ns, "timedjoin: deadline not modified");
-  __CPROVER_assert(r == 0 || g_joined == 0, "timedjoin: a timeout never swallows a successful join");
+  /* the clauses of timedjoin_contract once more, as individually named obligations on the real body */
+  __CPROVER_assert((r == 0) == (g_joined == 1), "timedjoin: returns 0 iff an attempt succeeded (a timeout never swallows a join)");
+  __CPROVER_assert(r == 0 || (g_read_ever == 1 && GT(g_now_s, g_now_ns, abst.tv_sec, abst.tv_nsec)),
+                   "timedjoin: a timeout error only after a clock reading strictly later than abstime");
+  __CPROVER_assert(g_try_ever == 1 && g_must_try == 0, "timedjoin: attempts at least once, and once more after each reading within the deadline");
   VERIF_CANARY();
 }
 
